@@ -1,3 +1,4 @@
 import CohdlVerif.Model.DriverLoop
--- model driver of property C12 (stub: no model entry points yet)
-def main : IO Unit := CohdlVerif.driverLoop (fun _ => "bad-op")
+import CohdlVerif.Model.C12Driver
+-- model driver of property C12:  `flat <design> | <clocks>` | `hier <design> | <clocks>` | `emit <design>`
+def main : IO Unit := CohdlVerif.driverLoop CohdlVerif.C12.handle
